@@ -146,8 +146,10 @@ type Cand struct {
 // (Q1 = Q2), Fill "(" Q1 U Q2 ")" in a style attribute.  U is R's rendering when R is set.
 type Tok struct {
 	Fill string `json:"f,omitempty"`
+	P1   string `json:"p1,omitempty"` // spaces / tabs inside the parentheses (style elements only)
 	Q1   string `json:"q,omitempty"`
 	Q2   string `json:"e,omitempty"`
+	P2   string `json:"p2,omitempty"`
 	U    string `json:"u,omitempty"`
 	R    *Ref   `json:"r,omitempty"`
 }
@@ -168,7 +170,7 @@ func (d *TokDoc) render(open string) string {
 	var b strings.Builder
 	for i := range d.Toks {
 		t := &d.Toks[i]
-		b.WriteString(t.Fill + open + t.Q1 + t.url() + t.Q2 + ")")
+		b.WriteString(t.Fill + open + t.P1 + t.Q1 + t.url() + t.Q2 + t.P2 + ")")
 	}
 	b.WriteString(d.Tail)
 	return b.String()
@@ -182,7 +184,7 @@ func coqToks(d *TokDoc) string {
 		if t.R != nil {
 			ref = "(Some " + coqRef(t.R) + ")"
 		}
-		it[i] = fmt.Sprintf("(HTok %s %s %s %s %s)", coqS(t.Fill), coqS(t.Q1), coqS(t.url()), coqS(t.Q2), ref)
+		it[i] = fmt.Sprintf("(HTok %s %s %s %s %s %s %s)", coqS(t.Fill), coqS(t.P1), coqS(t.Q1), coqS(t.url()), coqS(t.Q2), coqS(t.P2), ref)
 	}
 	return coqList(it) + " " + coqS(d.Tail)
 }
